@@ -283,6 +283,8 @@ func (k Keeper) InitateGaugesForDuration(ctx sdk.Context, triggerDuration time.D
 			receivedAmount, err := k.liquidityKeeper.TransferFundsForSwapFeeDistribution(ctx, gauge.AppId, poolID)
 			if err != nil {
 				logger.Info(fmt.Sprintf("error occurred while swap fee fund transfer, err : %s", err))
+				// what was just distributed has left the gauge: keep the reduced balance
+				k.SetGauge(ctx, gauge)
 				continue
 			}
 			// in case of swap fee distribution denom change in params
